@@ -1,4 +1,5 @@
 import GoatSpec.Proofs.Sched
+import GoatSpec.SkelSpec
 /-! # C08 — results do not depend on thread count, schedule or repetition  (**partial**)
 
 Model: `GoatSpec/Sched.lean` — the worker-pool skeletons of `pkg/goat/{track,patch,clean}.go` and
@@ -161,5 +162,39 @@ theorem rmw_schedule_dependent :
       (rmwRun ⟨false, [rmwWorker true, rmwWorker false]⟩ s₁).changed ≠
         (rmwRun ⟨false, [rmwWorker true, rmwWorker false]⟩ s₂).changed :=
   ⟨[0, 1, 0, 1], [0, 0, 1, 1], by decide⟩
+
+/-! ## shared state of the worker pools, read off the source (`vh skeleton`, regenerated on every run)
+
+The theorems above assume that each per-file task is a function of its input alone. One way to
+break that is package-level state touched from the pools. `refsOf f` is the set of package-level
+variables of the project that `f` or anything it (transitively) calls mentions. -/
+section skeleton
+open GoatSpec.SkelSpec
+
+def regexps : List String :=
+  ["pkg/config.TrackDeleteEndRegexp", "pkg/config.TrackInsertRegexp", "pkg/config.TrackGenerateEndRegexp",
+   "pkg/config.TrackMainEntryEndRegexp", "pkg/config.TrackUserEndRegexp"]
+
+/-- the functions that start goroutines: three diff stages (INIT is sequential) and the six pools of the commands -/
+theorem pool_functions : spawners =
+    ["pkg/diff.DifferV1.AnalyzeChanges", "pkg/diff.DifferV2.AnalyzeChanges",
+     "pkg/diff.DifferV3.AnalyzeChanges", "pkg/goat.CleanExecutor.cleanContentsParallel",
+     "pkg/goat.CleanExecutor.prepareContentsParallel", "pkg/goat.PatchExecutor.applyTracksParallel",
+     "pkg/goat.PatchExecutor.prepareContentsParallel", "pkg/goat.TrackExecutor.initTracksParallel",
+     "pkg/goat.TrackExecutor.saveTracksParallel"] := by decide +kernel
+
+/-- **the goroutines touch no package-level variable except the five compiled regular
+    expressions (`*regexp.Regexp`, safe for concurrent use, never assigned after package
+    initialisation) and the default printer configuration (read only)**; the diff workers touch
+    none at all -/
+theorem pools_share_no_package_state :
+    spawners.all (fun f => (spawnRefs f).all (fun v => regexps.contains v || v == "pkg/utils.defaultPrinterConfig")) = true
+    ∧ (spawners.filter (fun f => spawnRefs f ≠ [])) =
+      ["pkg/goat.CleanExecutor.cleanContentsParallel", "pkg/goat.CleanExecutor.prepareContentsParallel",
+       "pkg/goat.PatchExecutor.applyTracksParallel", "pkg/goat.PatchExecutor.prepareContentsParallel",
+       "pkg/goat.TrackExecutor.initTracksParallel", "pkg/goat.TrackExecutor.saveTracksParallel"] := by
+  constructor <;> decide +kernel
+
+end skeleton
 
 end GoatSpec.C08
